@@ -118,6 +118,9 @@ func (r *Root) Context() *crsctx.Context { return r.ctx }
 
 // Generate is exactly what `regex generate` computes for the given text.
 func (r *Root) Generate(text string) Outcome {
+	if CLIMode {
+		return cliGenerate(r.Dir, text)
+	}
 	return Guard(func() (string, error) {
 		ctxt := processors.NewContext(r.ctx)
 		return operators.NewAssembler(ctxt).Run(text)
@@ -126,6 +129,13 @@ func (r *Root) Generate(text string) Outcome {
 
 // GenerateFresh reloads the configuration from disk first (what each CLI run does).
 func GenerateFresh(dir, text string) Outcome {
+	if CLIMode {
+		return cliGenerate(dir, text)
+	}
+	return inprocGenerateFresh(dir, text)
+}
+
+func inprocGenerateFresh(dir, text string) Outcome {
 	return Guard(func() (string, error) {
 		ctxt := processors.NewContext(crsctx.New(dir, "toolchain.yaml"))
 		return operators.NewAssembler(ctxt).Run(text)
@@ -177,10 +187,19 @@ func runCmd(f func() (string, error)) CmdResult {
 	return CmdResult{o, so}
 }
 
-func (r *Root) procCtx() *processors.Context { return processors.NewContext(crsctx.New(r.Dir, "toolchain.yaml")) }
+func (r *Root) procCtx() *processors.Context {
+	return processors.NewContext(crsctx.New(r.Dir, "toolchain.yaml"))
+}
 
 // Format is `regex format <file>` (check=false) or `regex format --check <file>`.
 func (r *Root) Format(filePath string, check bool) CmdResult {
+	if CLIMode {
+		args := []string{"-d", r.Dir, "regex", "format"}
+		if check {
+			args = append(args, "--check")
+		}
+		return runCLI(r.Dir, "", append(args, cliFormatArg(r.Dir, filePath))...).cmdResult()
+	}
 	return runCmd(func() (string, error) {
 		cmd.VerifSetRoot(r.Dir, false)
 		return "", cmd.VerifProcessFile(filePath, r.procCtx(), check)
@@ -189,6 +208,9 @@ func (r *Root) Format(filePath string, check bool) CmdResult {
 
 // Update is `regex update <arg>` for an already validated argument.
 func (r *Root) Update(arg string) CmdResult {
+	if CLIMode {
+		return runCLI(r.Dir, "", "-d", r.Dir, "regex", "update", arg).cmdResult()
+	}
 	return runCmd(func() (string, error) {
 		cmd.VerifSetRoot(r.Dir, false)
 		if _, _, _, err := cmd.VerifParseRuleId(arg); err != nil {
@@ -201,6 +223,13 @@ func (r *Root) Update(arg string) CmdResult {
 
 // Compare is `regex compare <arg>`.
 func (r *Root) Compare(arg string, github bool) CmdResult {
+	if CLIMode {
+		args := []string{"-d", r.Dir}
+		if github {
+			args = append(args, "-o", "github")
+		}
+		return runCLI(r.Dir, "", append(args, "regex", "compare", arg)...).cmdResult()
+	}
 	return runCmd(func() (string, error) {
 		cmd.VerifSetRoot(r.Dir, github)
 		if _, _, _, err := cmd.VerifParseRuleId(arg); err != nil {
@@ -212,6 +241,13 @@ func (r *Root) Compare(arg string, github bool) CmdResult {
 
 // CompareAll is `regex compare --all`.
 func (r *Root) CompareAll(github bool) CmdResult {
+	if CLIMode {
+		args := []string{"-d", r.Dir}
+		if github {
+			args = append(args, "-o", "github")
+		}
+		return runCLI(r.Dir, "", append(args, "regex", "compare", "--all")...).cmdResult()
+	}
 	return runCmd(func() (string, error) {
 		cmd.VerifSetRoot(r.Dir, github)
 		return "", cmd.VerifPerformCompare(true, r.procCtx())
@@ -220,6 +256,9 @@ func (r *Root) CompareAll(github bool) CmdResult {
 
 // UpdateAll is `regex update --all`.
 func (r *Root) UpdateAll() CmdResult {
+	if CLIMode {
+		return runCLI(r.Dir, "", "-d", r.Dir, "regex", "update", "--all").cmdResult()
+	}
 	return runCmd(func() (string, error) {
 		cmd.VerifSetRoot(r.Dir, false)
 		cmd.VerifPerformUpdate(true, r.procCtx())
